@@ -146,6 +146,11 @@ func (p *Provider) runFullScan(ctx context.Context) error {
 func (p *Provider) loadAmmo(ctx context.Context) error {
 	ammos, err := p.Decoder.LoadAmmo(ctx)
 	if err != nil {
+		// A cancel during the preload is not a failure of the provider: hand the context's error on as it is,
+		// like runFullScan and runPreloaded do, so that core/engine recognises it (errutil.IsCtxError).
+		if ctxErr := ctx.Err(); ctxErr != nil && errors.Is(ctxErr, context.Canceled) && errors.Is(err, ctxErr) {
+			return ctxErr
+		}
 		return fmt.Errorf("cant LoadAmmo, err: %w", err)
 	}
 	p.ammos = make([]decoders.DecodedAmmo, 0, len(ammos))
